@@ -85,7 +85,7 @@ let basic_view : basic view = {
   v_slice = (fun a s -> get_slice (ni a) s);
   v_partial = (fun a s -> get_partial (ni a) s);
   v_list_len = (fun a s -> get_list_len (ni a) s);
-  v_list_item = (fun a i s -> get_list_item (ni a) (ni i) s);
+  v_list_item = (fun a i s -> get_list_item (ni a) (z_of_int i) s);
   v_clist_len = (fun a s -> get_char_list_len (ni a) s);
   v_clist_item = (fun a i s -> get_char_list_item (ni a) (ni i) s);
   v_blist_len = (fun a s -> get_byte_list_len (ni a) s);
